@@ -43,6 +43,10 @@ CHECKS = {
          "Seeded concurrent add/remove-heavy histories with commits, rollbacks and 0-2 injected I/O/lock faults; at quiescence Count() of a fresh warm and a fresh cold transaction must equal the number of items the ordered scan returns, per store.",
          "Trusted: simulator. No recovery/maintenance pass is given before the comparison (maintenance is unreachable through Begin, see DESIGN.md section 9).",
          "7/C06"),
+ "C07": (ENUM, "deterministic simulation + systematic single-fault enumeration: profile run lists every intercepted call of the subject, one run per (position, error kind)",
+         "For each sampled program (new store, new root, splits, updates/removes, out-of-node values, two stores) every intercepted call made by the subject in its body, Commit and rollback is failed once with every applicable error kind; judged: Commit result vs warm+cold dumps (never a mixture), Count, and a fault-free immediate retry that must commit within 60 simulated seconds (no waiting for an expiry). Exhaustive per sampled program for single faults; programs are sampled.",
+         "Trusted: simulator, KV model. Faults are injected above fs.retryIO (an error that persisted after sop's retries). Pairs of faults are not enumerated. 'Commit reports an error' is enforced as 'an error is reported whenever the changes did not all take effect' (a failure sop absorbs may end in success).",
+         "7/C07"),
 }
 
 NOT_APPLICABLE = {
